@@ -470,6 +470,10 @@ def desugar_for_loops(body, clauses, qual):
         pat = body[toks[lkw + 1].start:toks[j - 1].end]
         expr = body[toks[j + 1].start:toks[lbrace - 1].end]
         v = c["text"].strip()
+        if v.endswith(" into"):
+            # the loop expression is an IntoIterator, not an Iterator: the language desugaring calls into_iter on it
+            v = v[:-5].strip()
+            expr = "IntoIterator::into_iter(%s)" % expr
         close = pair[lbrace]
         head = "let mut %s = %s; loop { match %s.next() { None => break, Some(%s) => {" % (v, expr, v, pat)
         body = body[:toks[lkw].start] + head + body[toks[lbrace].end:toks[close].start] + "} } }" + body[toks[close].end:]
@@ -492,6 +496,8 @@ def invert_desugar(tt, names):
                         depth -= 1
                     j += 1
                 expr = out[i + 4:j]
+                if expr[:4] == ["IntoIterator", "::", "into_iter", "("] and expr[-1] == ")":
+                    expr = expr[4:-1]
                 hdr = ["loop", "{", "match", v, ".", "next", "(", ")", "{", "None", "=>", "break", ",", "Some", "("]
                 if out[j + 1:j + 1 + len(hdr)] != hdr:
                     raise ExtractError("R7 inverse: unexpected shape after `let mut %s`" % v)
@@ -987,7 +993,7 @@ class Gen:
             # R12 has no independent inverse: the expected tokens use the same routine (see DESIGN 2.2)
             src_fn_text = sf.text[b0:sf.toks[g_body_lo].start] + inline_result_combinators(sf.text[sf.toks[g_body_lo].start:sf.toks[g_body_hi].end], qual, option=(fs.r12 == "opt"))
         exp = expected_tokens(src_fn_text, rewrites, True)
-        rule = ("R7:" + ",".join(c["text"].strip() for c in desug)) if desug else ("R8" if has_ens else None)
+        rule = ("R7:" + ",".join(c["text"].strip().split()[0] for c in desug)) if desug else ("R8" if has_ens else None)
         if mutself:
             rule = "R10|" + (rule or "")
         self.items_check.append((qual, start, len(self.out), exp, rule))
@@ -1328,7 +1334,7 @@ class Gen:
         lines = self.out[s0 - 1:e0]
         i = 0
         while i < len(lines):
-            m = re.match(r"^\s*(pub\s+)?(broadcast\s+)?(?:proof fn|fn (?=client_))([A-Za-z0-9_]+)", lines[i])
+            m = re.match(r"^\s*(pub\s+)?(broadcast\s+)?(?:proof fn |fn (?=client_))([A-Za-z0-9_]+)", lines[i])
             if m:
                 tags = []
                 j = i - 1
